@@ -480,6 +480,14 @@ type SpecDB struct {
 	Trusted   []string          // names of assumed contracts
 	StateFns  map[string]*StateFn
 	GlobalFacts map[string][]SExpr
+	GlobalInits []*GlobalInit
+}
+
+type GlobalInit struct {
+	Name  string // qualified
+	Lit   string
+	Props []string
+	Src   string
 }
 
 func NewSpecDB() *SpecDB {
@@ -662,6 +670,23 @@ func (db *SpecDB) LoadSpecFile(path, pkgPath string, trusted bool) error {
 			}
 			db.SpecFns[name] = &SpecFn{Name: name, Params: ps, Result: strings.TrimSpace(rest[k+1:])}
 		case "global":
+			// global Name init "literal" [tags]  : the package initialiser
+			// assigns exactly this literal (checked on the SSA of init)
+			if k := strings.Index(rest, " init "); k >= 0 {
+				name := strings.TrimSpace(rest[:k])
+				if pkgPath != "" && !strings.Contains(name, ".") {
+					name = pkgPath + "." + name
+				}
+				body, tags := splitTags(rest[k+len(" init "):])
+				lit, err := strconv.Unquote(strings.TrimSpace(body))
+				if err != nil {
+					return fail(fmt.Errorf("global init literal: %v", err))
+				}
+				db.GlobalInits = append(db.GlobalInits, &GlobalInit{Name: name, Lit: lit, Props: tags, Src: src})
+				le, _ := parseSpecExpr("bytes(it) == " + strconv.Quote(lit))
+				db.GlobalFacts[name] = append(db.GlobalFacts[name], le)
+				continue
+			}
 			// global pkg/path.Name ensures <expr over `it`>
 			i := strings.Index(rest, " ensures ")
 			if i < 0 {
@@ -865,6 +890,18 @@ func (c *Contract) addClause(word, label, rest, src string) error {
 		}
 		if cl.Label == "" {
 			cl.Label = strconv.Itoa(len(c.Ensures) + 1)
+		}
+		c.Ensures = append(c.Ensures, cl)
+	case "assumes":
+		// an ensures clause that is NOT checked against the body: it is
+		// assumed at call sites and listed among the evidence assumptions
+		cl, err := mk("ensures", rest)
+		if err != nil {
+			return err
+		}
+		cl.Kind = "assumes"
+		if cl.Label == "" {
+			cl.Label = "assumed" + strconv.Itoa(len(c.Ensures)+1)
 		}
 		c.Ensures = append(c.Ensures, cl)
 	case "modifies":
